@@ -3665,6 +3665,8 @@ class TextWrappingSerializer(PrettySerializer):
             content.rstrip()
         ) and self._whitespace_is_legit_after_node(last_node):
             # text fits perfectly
+            if self._line_offset == 0:
+                content = self._level * self.indentation + content.lstrip()
             self.writer(content.rstrip() + "\n")
 
         elif self._available_space > len(content):
